@@ -52,6 +52,9 @@ pub fn run(input_data: serde_json::Value) -> serde_json::Value {
         "Result from min cost flow solver".to_string(),
     );
 
+    #[cfg(feature = "verif")]
+    solution::verif::record("start", start_schedule_with_info.get_schedule());
+
     let solution = if network.maintenance_considered() {
         println!("\nStarting local search:\n");
         println!("Initial objective value:");
@@ -69,6 +72,9 @@ pub fn run(input_data: serde_json::Value) -> serde_json::Value {
         println!("\nMaintenance is not considered, returning MinCostFlowSolver solution as final solution");
         objective.evaluate(start_schedule_with_info.clone())
     };
+
+    #[cfg(feature = "verif")]
+    solution::verif::record("after_ls", solution.solution().get_schedule());
 
     // optimize transitions
     println!("\nOptimizing transitions:");
@@ -91,10 +97,15 @@ pub fn run(input_data: serde_json::Value) -> serde_json::Value {
             .unwrap()
             .unwrap_transition();
 
+        #[cfg(feature = "verif")]
+        solution::verif::record_transition("optimiser_output", vehicle_type, &improved_transition);
+
         optimized_transitions.insert(vehicle_type, improved_transition);
     }
     let schedule_with_optimized_transitions =
         schedule.set_next_day_transitions(optimized_transitions);
+    #[cfg(feature = "verif")]
+    solution::verif::record("after_transition_opt", &schedule_with_optimized_transitions);
     println!(
         "Transition optimized (elapsed time: {:0.2}sec)",
         start_time_transition_optimization.elapsed().as_secs_f32()
@@ -116,6 +127,9 @@ pub fn run(input_data: serde_json::Value) -> serde_json::Value {
 
     // println!("\nfinal schedule (long version):");
     // final_solution.solution().print_tours_long();
+
+    #[cfg(feature = "verif")]
+    solution::verif::record("final", final_solution.solution().get_schedule());
 
     let final_schedule = final_solution.solution().get_schedule();
     println!("\nFinal schedule:");
